@@ -344,6 +344,7 @@ _ARITH_KINDS = {z3.Z3_OP_ADD, z3.Z3_OP_SUB, z3.Z3_OP_MUL, z3.Z3_OP_UMINUS, z3.Z3
                 z3.Z3_OP_IMPLIES, z3.Z3_OP_XOR, z3.Z3_OP_ANUM, z3.Z3_OP_TRUE, z3.Z3_OP_FALSE, z3.Z3_OP_DIV, z3.Z3_OP_TO_REAL,
                 z3.Z3_OP_REM}
 _abs_memo: dict = {}
+_simp_memo: dict = {}
 _abs_counter = [0]
 
 
@@ -351,6 +352,13 @@ def arith_abstract(t):
     """Replace every maximal non-arithmetic subterm by an opaque constant (same subterm -> same constant).
     Returns (abstract term, list of side facts such as len >= 0)."""
     facts = []
+    key = t.get_id()
+    if key in _simp_memo:
+        t = _simp_memo[key][0]
+    else:
+        ts = z3.simplify(t)      # canonical argument order for commutative operators (a == b vs b == a)
+        _simp_memo[key] = (ts, t)
+        t = ts
     r = _abs(t, facts)
     return r, facts
 
